@@ -274,10 +274,13 @@ static void nop_fn(void *a)
 {
     (void)a;
 }
+static ABT_pool primary_pool;
 static ABT_pool target_pool(void)
 {
     if (X.populated)
         return X.pool2;
+    if (enumerating_on_ext)
+        return primary_pool; /* (an external thread has no stream to ask) */
     ABT_xstream xs;
     ABT_pool p;
     ABT_OK(ABT_xstream_self(&xs));
@@ -955,6 +958,11 @@ static const op18 OPS[] = {
     { "ABT_thread_create(user_pool)", d_thread_create_upool, u_thread, ABT_THREAD_NULL, 0, 2 },
     { "ABT_task_create(user_pool)", d_task_create_upool, u_thread, ABT_TASK_NULL, 0, 2 },
     { "ABT_thread_revive(user_pool)", d_thread_revive_upool, u_thread_revive_upool, POISON, 0, 2 },
+    /* the same from an external thread: descriptors come from malloc, stacks from the global pool */
+    { "ABT_thread_create(ext)", d_thread_create, u_thread, ABT_THREAD_NULL, 0, 0, 1 },
+    { "ABT_task_create(ext)", d_task_create, u_thread, ABT_TASK_NULL, 0, 0, 1 },
+    { "ABT_thread_create(user_pool,ext)", d_thread_create_upool, u_thread, ABT_THREAD_NULL, 0, 2, 1 },
+    { "ABT_task_create(user_pool,ext)", d_task_create_upool, u_thread, ABT_TASK_NULL, 0, 2, 1 },
     { "ABT_thread_set_associated_pool(user_pool)", d_set_assoc_upool, u_set_assoc_upool, POISON, 2, 2 },
     { "ABT_xstream_set_main_sched(joined,user_pool)", d_set_main_sched_joined, u_set_main_sched_joined, POISON, 2, 2 },
     { "ABT_xstream_set_main_sched_basic(joined,user_pool)", d_set_main_sched_basic_joined, u_set_main_sched_joined, POISON, 2, 2 },
@@ -991,6 +999,7 @@ static const op18 OPS[] = {
 };
 #define NOPS ((int)(sizeof OPS / sizeof OPS[0]))
 
+static const char *only_name; /* C17: only the entries whose name contains this */
 static void follow_up(const char *op)
 {
     /* the pre-existing objects still work */
@@ -1006,6 +1015,18 @@ static void follow_up(const char *op)
         ABT_xstream xs;
         ABT_OK(ABT_xstream_create(ABT_SCHED_NULL, &xs));
         ABT_OK(ABT_xstream_free(&xs));
+    }
+    if (X.populated && (only_name || plan_n(4) == 0)) {
+        /* the joined stream (whose main scheduler a failed call may have tried to replace) still
+         * has a scheduler that runs: revive it, let it run a unit, join it again */
+        ABT_pool jp;
+        ABT_thread jt;
+        ABT_OK(ABT_xstream_revive(X.jxs));
+        ABT_OK(ABT_xstream_get_main_pools(X.jxs, 1, &jp));
+        ABT_OK(ABT_thread_create(jp, nop_fn, NULL, ABT_THREAD_ATTR_NULL, &jt));
+        ABT_OK(ABT_thread_free(&jt));
+        ABT_OK(ABT_xstream_join(X.jxs));
+        sim_count("c18.joined_stream_revived_after_an_attempt", 1);
     }
     (void)op;
     sim_progress();
@@ -1171,7 +1192,7 @@ static void run_c18(void)
     int first = (int)plan_n(NOPS), cnt = plan_range(3, sim_limit("ops", 8));
     int sel[NOPS], nsel = 0;
     for (int i = 0; i < NOPS; i++)
-        if (!only_upool || OPS[i].upool)
+        if ((!only_upool || OPS[i].upool) && (!only_name || strstr(OPS[i].name, only_name)))
             sel[nsel++] = i;
     for (int i = 0; i < cnt; i++) {
         const op18 *o = &OPS[sel[(first + i * 5) % nsel]];
@@ -1181,6 +1202,13 @@ static void run_c18(void)
             continue; /* replacing the caller's scheduler is exercised in the fresh runtime */
         sim_note("%s; ", o->name);
         if (o->on_ext) {
+            if (o->upool)
+                up18_ensure();
+            {
+                ABT_xstream self;
+                ABT_OK(ABT_xstream_self(&self));
+                ABT_OK(ABT_xstream_get_main_pools(self, 1, &primary_pool));
+            }
             ext_op = o;
             ext_op_done = 0;
             enumerating_on_ext = 1;
@@ -1240,6 +1268,15 @@ static void run_c12_faults(void)
     only_upool = 0;
 }
 SIM_WORKLOAD("C12", "failed-revives", run_c12_faults, 1)
+/* C17: a main-scheduler replacement that fails leaves the stream with its old scheduler, able to
+ * be revived, joined and freed */
+static void run_c17_faults(void)
+{
+    only_name = "set_main_sched";
+    run_c18();
+    only_name = NULL;
+}
+SIM_WORKLOAD("C17", "failed-sched-replacements", run_c17_faults, 1)
 
 /* ---- scenario "migration-handler": the allocation-class failure happens while a migration
  * request is being *served*, i.e. inside ABT_thread_yield() of the migrating unit (the target
